@@ -7,8 +7,9 @@ returns a compiled query or a typed error; it never panics."
 The text → AST GraphQL parser is an external crate and is not modelled; the model's input is the
 abstract document it produces (`TF.FE.Doc`).
 
-STATE OF THE CODE THIS FILE IS ABOUT: /repo with the six repairs of F-6, F-7, F-8, F-12, F-C10-1,
-F-C10-3 applied (hooks/fix-*.diff).  The theorems and witnesses about the tree before the repairs
+STATE OF THE CODE THIS FILE IS ABOUT: /repo with the seven repairs of F-6, F-7, F-8, F-12, F-C10-1,
+F-C10-3, F-C10-2 applied (hooks/fix-*.diff; F-C10-2 = hooks/fix-enum.diff: the `FieldValue::Enum`
+arm of `Type::is_valid_value` is `false` instead of `unimplemented!`).  The theorems and witnesses about the tree before the repairs
 are kept as history comments at the end of each part.
 
 Stage 1: the parse layer `graphql_query::query::parse_document` (`TF.FE.parseDocument`).
@@ -23,14 +24,14 @@ Stage 2: `frontend::parse` minus the text parser, `TF.FE.compile S doc` = `parse
 `make_ir_for_query` (validation.rs, mod.rs, filters.rs, tags.rs, outputs.rs, util.rs) and the
 `IndexedQuery` conversion's `get_output_type`, against a schema view `S`.
 
-Full statement (still FALSE, three witness theorems below):
+Full statement (still FALSE, two witness theorems below):
 
     theorem frontend_total : ValidSchemaView S → ParserProducible doc → ∀ s, compile S doc ≠ .panic s
 
 What is proved instead:
-* `frontend_panic_sites` — of the 61 modelled panic sites only the three of `KnownSite` can fire
-  (F-C10-2 enum-valued edge argument, F-C10-4 output under too many folds, F-C10-6 `one_of` on a
-  30-level list); every other `unwrap/expect/assert!/index/unreachable!/unimplemented!` is
+* `frontend_panic_sites` — of the 61 modelled panic sites only the two of `KnownSite` can fire
+  (F-C10-4 output under too many folds, F-C10-6 `one_of` on a 30-level list; F-C10-2, the
+  enum-valued edge argument, was the third until its repair); every other `unwrap/expect/assert!/index/unreachable!/unimplemented!` is
   unreachable, in particular the index `ir_vertices[&vid]` of mod.rs:399/405 after the repair of
   F-C10-3 (every entry of a component's output map refers to one of its vertices or to a vertex of
   one of its folds: the `tops` clause of `FillPost`), all of
@@ -39,7 +40,10 @@ What is proved instead:
   and `filters.rs`, the `unimplemented!` of mod.rs:1111 (the parse layer never builds a
   re-transform: `parseDocument_noRetr`) and the `unreachable!` of mod.rs:130;
 * `frontend_total_partial` — no panic at all outside those classes;
-* `frontend_panics_n2_only_if` — F-C10-2 needs an enum literal among a field's arguments;
+* `frontend_no_enum_panic` — the former site of F-C10-2 (`is_valid_value` on an enum-valued edge
+  argument) cannot fire on any document (it was `frontend_panics_n2_only_if`: "only if some field
+  has an enum literal among its arguments"); such an argument is an `InvalidEdgeParameterType`
+  error now (regression example below);
 * N-5 / F-C10-5 (a schema that declares an edge parameter twice, accepted by `Schema::new`) is the
   witness that `ValidSchemaView`'s `paramsDistinct` clause is needed (`paramDuplicate_witness`).
 -/
@@ -128,8 +132,7 @@ two operations". -/
 /-! ## Stage 2: the frontend proper -/
 
 /-- The guard of the partial theorem: the document does not run into one of the remaining defect
-classes.  F-C10-2 has a proved syntactic necessary condition
-(`frontend_panics_n2_only_if`); the classes are otherwise delimited by the model's own panic site —
+classes (F-C10-4, F-C10-6).  The classes are delimited by the model's own panic site —
 the decidable statement "`compile S doc` does not panic at that site" — which the harness replays
 against the real code for every generated document. -/
 def NoKnownTrigger (S : SchemaView) (doc : Doc) : Prop :=
@@ -157,7 +160,7 @@ theorem frontend_panic_sites {S : SchemaView} (hS : ValidSchemaView S) {doc : Do
       | err e => rw [hpd] at h; cases h
       | ok q =>
         rw [hpd] at h
-        have := ((makeIrForQuery_sat hS (parseDocument_wf hpd) (parseDocument_noRetr hpd)).panic_site h).1
+        have := (makeIrForQuery_sat hS (parseDocument_wf hpd) (parseDocument_noRetr hpd)).panic_site h
         exfalso
         rcases hcase with hc | hc <;> (subst hc; exact absurd this (by decide))
     exact parse_total hp _ this
@@ -171,12 +174,13 @@ theorem frontend_total_partial {S : SchemaView} (hS : ValidSchemaView S) {doc : 
     (hp : ParserProducible doc) (hk : NoKnownTrigger S doc) : ∀ s, compile S doc ≠ .panic s :=
   fun s h => hk s (frontend_panic_sites hS hp h) h
 
-/-- N-2 (F-C10-2) is reached only if some field has an enum literal among its arguments. -/
-theorem frontend_panics_n2_only_if {S : SchemaView} (hS : ValidSchemaView S) {doc : Doc}
-    (h : compile S doc = .panic .enumArgument) :
-    ∃ q, parseDocument doc = .ok q ∧
-      (argsHaveEnum q.rootConnection.arguments = true ∨ hasEnumNode q.rootField = true) :=
-  compile_enumArgument hS h
+/-- The former site of N-2 / F-C10-2 — the `unimplemented!` of `is_valid_value` on an enum-valued
+edge or root-field argument — cannot fire, on any document (no `ParserProducible` needed).
+(History: `frontend_panics_n2_only_if`, "N-2 is reached only if some field has an enum literal among
+its arguments", while `.enumArgument` was a `KnownSite`.) -/
+theorem frontend_no_enum_panic {S : SchemaView} (hS : ValidSchemaView S) {doc : Doc} :
+    compile S doc ≠ .panic .enumArgument :=
+  compile_not_enumArgument hS
 
 /-! ### Witnesses and regressions (each is in `corpus/C10.cases` as text and replayed against the
 real code) -/
@@ -228,10 +232,12 @@ example : (compile miniSchema (single (fld "A" [] [fld "flag" [dFilter "=" "$x",
 example : (compile miniSchema (single (fld "__typename"))).cls
     = .err (.frontend [.PropertyMetaFieldUsedAsEdge]) := by decide +kernel
 
-/-- **N-2** `{ A(max: FOO) }`. -/
-theorem n2_witness :
-    compile miniSchema (single (fld "A" [] [] [⟨"max", .enum "FOO"⟩])) = .panic .enumArgument :=
-  Res.cls_eq_panic.mp (by decide +kernel)
+/-- Regression for N-2 / F-C10-2 `{ A(max: FOO) { value @output } }` (was `.panic .enumArgument`,
+`n2_witness`): an ordinary type error of the argument — also for an enum literal inside a list. -/
+example : (compile miniSchema (single (fld "A" [] [fld "value" [dOutput]] [⟨"max", .enum "FOO"⟩]))).cls
+    = .err (.frontend [.InvalidEdgeParameterType]) := by decide +kernel
+example : (compile miniSchema (single (fld "A" [] [fld "value" [dOutput]]
+    [⟨"max", .list [.enum "FOO"]⟩]))).cls = .err (.frontend [.InvalidEdgeParameterType]) := by decide +kernel
 
 /-- Regression for N-3 / F-C10-3 `{ A { value @output(name: "a") next @fold @transform(op: "count")
 @output(name: "a") } }` (was `.panic .dupOutputVertexIndex`, `n3_witness`). -/
@@ -262,7 +268,7 @@ theorem n6_witness :
 theorem frontend_total_false :
     ¬ ∀ (S : SchemaView) (doc : Doc), ValidSchemaView S → ParserProducible doc →
       ∀ s, compile S doc ≠ .panic s :=
-  fun h => h miniSchema _ miniSchema_valid (by decide +kernel) _ n2_witness
+  fun h => h miniSchema _ miniSchema_valid (by decide +kernel) _ n6_witness
 
 /-- **N-5**: `type Root { A(x: Int, x: Int): A }  type A { v: Int }` is accepted by `Schema::new`
 but is not a `ValidSchemaView`; every query through `A` panics at mod.rs:195. -/
@@ -280,13 +286,17 @@ example : NoKnownTrigger miniSchema (single (fld "A" [] [fld "value" [dOutput, d
     fld "next" [dFold, dCount, dOutputNamed "n"] [fld "flag" [dFilter "=" "$f"]]])) := by decide +kernel
 example : (compile miniSchema (single (fld "A" [] [fld "value" [dOutput, dFilter "<" "$x"],
     fld "next" [dFold, dCount, dOutputNamed "n"] [fld "flag" [dFilter "=" "$f"]]]))).cls = .ok := by decide +kernel
-example : ¬ NoKnownTrigger miniSchema (single (fld "A" [] [] [⟨"max", .enum "FOO"⟩])) := by
+example : ¬ NoKnownTrigger miniSchema (single (fld "A" [] [fld "deep" [dFilter "one_of" "$x"]])) := by
+  decide +kernel
+/-- The enum-argument query no longer violates the guard (it did before the repair of F-C10-2). -/
+example : NoKnownTrigger miniSchema (single (fld "A" [] [fld "value" [dOutput]] [⟨"max", .enum "FOO"⟩])) := by
   decide +kernel
 
-/-! History (tree before the six repairs): `KnownSite` had nine sites; additionally proved then:
-`f7_witness`, `f8_witness`, `f12_witness`, `n1_witness`, `n3_witness` (the panics the regression
-examples above used to be), `frontend_panics_f7_only_if` (F-7 only with `@fold @transform …
-@transform`) and `frontend_panics_n1_only_if` (N-1 only for a root field `__typename`). -/
+/-! History (tree before the seven repairs): `KnownSite` had nine sites; additionally proved then:
+`f7_witness`, `f8_witness`, `f12_witness`, `n1_witness`, `n2_witness`, `n3_witness` (the panics the
+regression examples above used to be), `frontend_panics_f7_only_if` (F-7 only with `@fold @transform …
+@transform`), `frontend_panics_n1_only_if` (N-1 only for a root field `__typename`) and
+`frontend_panics_n2_only_if` (N-2 only with an enum literal among a field's arguments). -/
 
 end TF.C10
 
@@ -296,8 +306,7 @@ end TF.C10
 #print axioms TF.C10.empty_selection_witness
 #print axioms TF.C10.frontend_panic_sites
 #print axioms TF.C10.frontend_total_partial
-#print axioms TF.C10.frontend_panics_n2_only_if
-#print axioms TF.C10.n2_witness
+#print axioms TF.C10.frontend_no_enum_panic
 #print axioms TF.C10.n4_witness
 #print axioms TF.C10.n6_witness
 #print axioms TF.C10.frontend_total_false
